@@ -7,7 +7,8 @@ FB = "fibertree/core/fiber.py"
 RK = "fibertree/core/rank.py"
 RA = "fibertree/core/rank_attrs.py"
 field("RankAttrs._fmt", "str")
-for f, q in ((FB, "Fiber.getRankAttrs"), (RK, "Rank.getFormat"), (RA, "RankAttrs.getFormat")):
+field("RankAttrs._id", "str")
+for f, q in ((FB, "Fiber.getRankAttrs"), (RK, "Rank.getFormat"), (RA, "RankAttrs.getFormat"), (RA, "RankAttrs.getId")):
     contract(f, q, inline=True)
 
 BOOK_SAME = "self._saved_pos == old(self._saved_pos) and self._saved_count == old(self._saved_count) and self._saved_dist == old(self._saved_dist)"
